@@ -228,6 +228,23 @@ def freezePots (s : State) : Except (State × Err) State :=
       | .ok sp => .ok { s with subPots := sp }
     else .ok s
 
+/-- the pending dealing work `_begin_dealing` (state.py:3516-3563) sets up for street `st`,
+    including the fall-back of hole cards to the board when the dealer cannot cover them -/
+def dealSetup (s : State) (st : Street) : State :=
+  let s := { s with
+    cardBurning := st.burn
+    boardDealing := List.replicate cfg.startingBoardCount.toNat st.board
+    holeDealing := (playerIndices cfg).map fun i =>
+      if getB s.statuses i then s.holeDealing.getD i [] ++ st.hole else s.holeDealing.getD i []
+    standingPat := (playerIndices cfg).map fun i =>
+      if getB s.statuses i then st.draw else getB s.standingPat i }
+  let pending : Nat := (s.holeDealing.map List.length).foldl (· + ·) 0
+  if pending > (s.dealableCards env none).length then
+    { s with
+      boardDealing := s.boardDealing.map (· + st.hole.length)
+      holeDealing := s.holeDealing.map fun _ => [] }
+  else s
+
 /-- `push_chips` (state.py:6106-6154) after verification, for the sub-pot `sp` at the head of
     the queue: new state and logged operation, or the state left behind by an escaping
     exception -/
@@ -386,20 +403,7 @@ def step (m : M) : M :=
       | some si, some st =>
         if !(0 ≤ si && si < cfg.streets.length) then m.raise .assertionError
         else
-          let s := { s with
-            cardBurning := st.burn
-            boardDealing := List.replicate cfg.startingBoardCount.toNat st.board
-            holeDealing := (playerIndices cfg).map fun i =>
-              if getB s.statuses i then s.holeDealing.getD i [] ++ st.hole else s.holeDealing.getD i []
-            standingPat := (playerIndices cfg).map fun i =>
-              if getB s.statuses i then st.draw else getB s.standingPat i }
-          let pending : Nat := (s.holeDealing.map List.length).foldl (· + ·) 0
-          let s :=
-            if pending > (s.dealableCards env none).length then
-              { s with
-                boardDealing := s.boardDealing.map (· + st.hole.length)
-                holeDealing := s.holeDealing.map fun _ => [] }
-            else s
+          let s := dealSetup cfg env s st
           if !(s.anyHoleDealing || s.anyBoardDealing || anyB s.standingPat) then
             m.raise .assertionError
           else m.cont s [.updDeal none] rest
